@@ -270,10 +270,13 @@ int main(int argc, char **argv)
             }
             // victim sends application data after everything: where does it go?
             if (in["victimSendsAfter"].toBool()) {
-                victim->ice->component(1)->sendDatagram(QByteArray::fromHex(in["victimPayload"].toString().toLatin1()));
+                const QByteArray vp = QByteArray::fromHex(in["victimPayload"].toString().toLatin1());
+                victim->ice->component(1)->sendDatagram(vp);
                 QElapsedTimer t2;
                 t2.start();
-                while (t2.elapsed() < 150) QCoreApplication::processEvents(QEventLoop::AllEvents | QEventLoop::WaitForMoreEvents, 5);
+                // logical wait: until the honest peer has it (a loaded machine may need much longer than the 150 ms that are enough when idle)
+                Side &peer = (victim == &w->b) ? w->a : w->b;
+                while (t2.elapsed() < 150 || (honest && t2.elapsed() < 4000 && !peer.received.contains(vp))) QCoreApplication::processEvents(QEventLoop::AllEvents | QEventLoop::WaitForMoreEvents, 5);
             }
             auto side = [&](Side &s) {
                 QJsonArray rec, log;
